@@ -149,13 +149,32 @@ func TestVfC07CacheKey(t *testing.T) {
 		class := vfkit.GenClass(t)
 		mark := rapid.SampledFrom([]string{"", "cn", "us", "office"}).Draw(t, "mark")
 		n2, typ2, class2, mark2 := n1, typ, class, mark
-		diff := rapid.SampledFrom([]string{"none", "name", "type", "class", "mark"}).Draw(t, "differIn")
+		diff := rapid.SampledFrom([]string{"none", "name", "name-bit5", "type", "class", "mark"}).Draw(t, "differIn")
 		switch diff {
 		case "name":
 			n2 = vfkit.GenNameFrom(t, p, 4).Lower()
 			if n2.Equal(n1) {
 				diff = "none"
 			}
+		case "name-bit5":
+			// a non-letter octet with bit 0x20 flipped ('_' vs DEL, '[' vs '{', '1' vs 0x11): an over-eager case
+			// folding would conflate the two names
+			n1 = append(vfkit.Name{[]byte(rapid.SampledFrom([]string{"_dmarc", "a_b", "x[y]", "1^2", "k-9", "@\\`"}).Draw(t, "bit5Label"))}, n1...)
+			for n1.WireLen() > 255 {
+				n1 = n1[:len(n1)-1]
+			}
+			n2 = make(vfkit.Name, len(n1))
+			copy(n2, n1)
+			l := append([]byte(nil), n1[0]...)
+			var cand []int
+			for i, c := range l {
+				if !('a' <= c|0x20 && c|0x20 <= 'z') {
+					cand = append(cand, i)
+				}
+			}
+			i := cand[rapid.IntRange(0, len(cand)-1).Draw(t, "flipAt")]
+			l[i] ^= 0x20
+			n2[0] = l
 		case "type":
 			typ2 = typ + uint16(rapid.IntRange(1, 300).Draw(t, "dType"))
 		case "class":
@@ -341,7 +360,8 @@ func TestVfC08StorePolicy(t *testing.T) {
 
 		// negative over positive
 		if !tc && M.Rcode() == 0 {
-			neg := &vfkit.Msg{Bits: vfkit.BitQR | 3, Q: M.Q}
+			negRcode := rapid.SampledFrom([]uint16{1, 2, 3, 4, 5, 9, 15}).Draw(t, "negativeRcode")
+			neg := &vfkit.Msg{Bits: vfkit.BitQR | negRcode, Q: M.Q}
 			nr := vfToRepoMsg(t, neg)
 			c.Store(q, client, nr)
 			dnsmsg.ReleaseMsg(nr)
